@@ -183,6 +183,9 @@ func genC01(r *Rng, tier string) *Plan {
 		g.P.Add(Op{K: "put-ent", Spec: ne, Label: "sigalg-mismatch"})
 		g.P.Meta["mismatch"] = e.ID
 		g.Run(DefaultFlags, "mismatch")
+		// and again, nothing touched: the failed run must not have left anything behind that makes
+		// the same run "succeed" now
+		g.Run(DefaultFlags, "mismatch")
 	}
 	return g.P
 }
